@@ -293,6 +293,12 @@ def f_prov():
                    [call("P1", en="in", arg="in")]):
             for b1 in ([call("M0", arg="in")], [call("P0", arg="in")], [call("P1", arg="in")]):
                 yield D([[m0, ["alias", "P0", "M0"], ["alias", "P1", "P0"], T("T0", b0), T("T1", b1)]])
+        # a method with validate_arguments reached through provide() chains, and a mid method calling the alias
+        v0 = M("M0", i=1, o="notarg", nx=nx, val=True)
+        al = [["alias", "P0", "M0"], ["alias", "P1", "P0"]]
+        yield D([[v0] + al + [T("T0", [call("P1", arg="in")]), T("T1", [call("M0", arg="in")])]])
+        yield D([[v0] + al + [T("T0", [If([call("P0", arg=0)], [call("P1", arg=1)], has_else=True)])]])
+        yield D([[v0] + al + [M("A", [call("P1", arg="in")]), T("T0", [call("A", en="in")]), T("T1", [call("P0", arg=1)])]])
 
 
 def f_xrel():
